@@ -21,7 +21,7 @@ RULE = ("placement cases: a node set of 1-8 names (host:port look-alikes such as
         "k<n>, digit-only, long keys + Hypothesis-drawn keys), an add/remove history in which each step is or is not followed by lookups (so remove+add pairs leave the node count unchanged between lookups). For each: (i) get_node == "
         "independent reference rule (max murmur3('<node>-<key>'), ties to greatest name), (ii) equal under every "
         "permutation of insertion (all n! for n<=6) and for any add/remove history reaching the same set, also when "
-        "built via the nodes= constructor argument, (iii) removal moves only the removed node's keys, addition moves "
+        "built via the nodes= constructor argument, and for copy.copy / copy.deepcopy of the ring; hash functions include two whose results exceed 32 bits; (iii) removal moves only the removed node's keys, addition moves "
         "keys only onto the new node, (v) spread >= K/(4n) per node for K>=2000. Spelling cases: HashClient built from "
         "equivalent server spellings has identical rotation and placement. Cross-process cases: 4 interpreters with "
         "different PYTHONHASHSEED produce the same placement digest as the in-process reference. Non-trivial: >=3 "
@@ -58,6 +58,13 @@ def _hf(name):
         return lambda s, seed: 0
     if name == "sum5":
         return lambda s, seed: sum(map(ord, s)) % 5
+    if name == "wide64":
+        # a hash function with a 64-bit result (the documented way to plug in another algorithm)
+        import hashlib
+        return lambda s, seed: int.from_bytes(hashlib.blake2b(s.encode("utf-8", "surrogatepass"), digest_size=8, salt=seed.to_bytes(8, "little")).digest(), "big")
+    if name == "high32":
+        # results that differ only above bit 31
+        return lambda s, seed: (murmur3_32(s, seed) & 7) << 40
     raise ValueError(name)
 
 
@@ -204,6 +211,17 @@ def check_placement(case):
     elif case.get("history"):
         if r.get_node("anything") is not None:
             fail(["empty"], "empty rotation returned a node")
+    # (ii') a copy of the ring (copy.copy / copy.deepcopy - HashClient objects get copied along with application state)
+    #       places keys like the ring it was copied from, also after both have changed membership in the same way
+    import copy
+    for how in (copy.copy, copy.deepcopy):
+        try:
+            dup = how(base)
+        except Exception as e:  # noqa: BLE001
+            fail(["copy-raises", how.__name__], "%s of the ring raised %r" % (how.__name__, e))
+        for k in sub[:40]:
+            if dup.get_node(k) != exp[k]:
+                fail(["copy-placement", how.__name__], "%s of the ring places %r on %r, the ring itself on %r" % (how.__name__, k, dup.get_node(k), exp[k]))
     # (iii) minimal disruption
     if n >= 2:
         x = nodes[case["kseed"] % n]
@@ -249,7 +267,7 @@ def placement_strategy(tier):
     big = tier == "thorough"
     return st.fixed_dictionaries({
         "nodes": nodes,
-        "hash": st.sampled_from(["murmur", "murmur", "murmur", "len3", "const", "low2", "sum5", "zero"]),
+        "hash": st.sampled_from(["murmur", "murmur", "murmur", "len3", "const", "low2", "sum5", "zero", "wide64", "high32"]),
         "hseed": st.sampled_from([0, 0, 0, 1, 2**31, 2**32 - 1]),
         "kseed": st.integers(0, 2**31),
         "nkeys": st.sampled_from([120, 300] if not big else [300, 1000]),
